@@ -11,7 +11,7 @@ N = ["n"]
 INT_LITS = ["0", "1", "3", "5", "10", "11", "-1", "-5", "100", "2000000000"]
 HEX_LITS = ["0x0", "0x1", "0x1F", "0x20", "0x21", "0xff", "0X1f", "1f", "20", "0x10", "0xFF"]
 STR_LITS = ["", "x", "a b", 'q"z', "a\\b", "#c", "zz", "5"]
-FLOAT_LITS = ["0.0", "5", "5.0", "1e3", "-0.5", ".5", "2.5", "10.0", "100.5", "1.5", "3.25", "7"]
+FLOAT_LITS = ["0.0", "5", "5.0", "1e3", "-0.5", ".5", "2.5", "10.0", "100.5", "1.5", "3.25", "7", "2.5e16", "1e-7"]
 
 
 # --------------------------------------------------------------------- tables
@@ -42,7 +42,7 @@ def tables(extra_strings=()):
     for s in set(FLOAT_LITS) | set(extra_strings) | set(num10):
         if re.fullmatch(r"[-+]?([0-9]+\.?[0-9]*|\.[0-9]+)([eE][-+]?[0-9]+)?", s):
             x = float(s)
-            if math.isfinite(x) and abs(x) < 1e15:
+            if math.isfinite(x):  # floats are compared by rank, so magnitude is not limited by TLC integers
                 fvals[s] = x
     for x in list(fvals.values()):
         fvals.setdefault(str(x), x)
